@@ -122,6 +122,39 @@ def check(run):
         if calls != want:
             k = next((i for i, (a, b) in enumerate(zip(calls, want)) if a != b), min(len(calls), len(want)))
             oracle_fail.append((cfg, l[:300], f"call {k}: {want[k][:80] if k < len(want) else 'nothing'}", (calls[k] if k < len(calls) else "nothing")[:200]))
+    # the positions (not the values) again in builds that store less: 32-bit integers only, floats only — a value that cannot
+    # be kept is still consumed entirely
+    for defs in ({"ARDUINOJSON_USE_LONG_LONG": 0}, {"ARDUINOJSON_USE_DOUBLE": 0, "ARDUINOJSON_STRING_LENGTH_SIZE": 1}):
+        cfg2 = "10000" if "ARDUINOJSON_USE_DOUBLE" in defs else cfg
+        d2 = {k: v for k, v in defs.items() if k != "ARDUINOJSON_USE_DOUBLE"}
+        impl2 = vlib.need_harness("doc_h", cfg2, d2)
+        sub = mseqs[: (4000 if thorough else 600)]
+        # integers at the 32/64-bit edges, back to back
+        for _ in range(200 if thorough else 60):
+            vals = [rnd.choice([2 ** 32 - 1, 2 ** 32, 2 ** 40 + 5, 2 ** 63, 2 ** 64 - 1, -2 ** 31, -2 ** 31 - 1, -2 ** 40, -2 ** 63, 1700000000000, 7]) for _ in range(rnd.randrange(1, 5))]
+            stream, exp = b"", []
+            for z in vals:
+                stream += gen_doc.mp_encode(("i", z), rnd)
+                exp.append(("?", len(stream)))
+            sub = sub + [(stream, exp)]
+        l2 = ["MS " + hx(s_) for s_, _ in sub]
+        o2, crash2 = vlib.run_sharded(impl2, l2, None, 900, ["CFG " + cfg2])
+        if crash2:
+            run.violation(f"C16: library crashed ({defs}): {crash2[:200]}", dict(kind="input", cfg=cfg2, defines=d2, harness_src="doc_h", lines=[l2[0]], observed=crash2[-2000:]))
+        for (stream, exp), l, o in zip(sub, l2, o2):
+            run.count((str(defs), l))
+            if o == "<crash>":
+                continue
+            if "STREAM-DIFFERS" in o:
+                oracle_fail.append((cfg2, l[:200], f"std::istream, block-wise std::istream, Arduino Stream and custom reader agree [{defs}]", o[:300])); continue
+            calls = [c for c in o.strip().split(" ") if c]
+            heads = [c.split(":", 1)[0] for c in calls]
+            wanth = [f"Ok@{pos}" for _, pos in exp] + [f"EmptyInput@{len(stream)}"]
+            if any(h.startswith("NoMemory") for h in heads):
+                continue      # a string longer than the 1-byte length limit: C19's subject
+            if heads != wanth:
+                k = next((i for i, (a, b) in enumerate(zip(heads, wanth)) if a != b), min(len(heads), len(wanth)))
+                oracle_fail.append((cfg2, l[:300], f"call {k} ends at {wanth[k] if k < len(wanth) else 'nothing'} [{defs}]", (calls[k] if k < len(calls) else "nothing")[:200]))
     run.cov["rule"] = ("sequences of 1-6 JSON documents of every top-level kind with separators none/space/LF/CRLF/mixed (numbers followed by at least one "
                        "whitespace byte), and of 1-5 back-to-back MessagePack objects with random legal widths; successive calls on std::istringstream (tellg) and "
                        "on a byte-counting custom reader must agree, return the documents in order (Python json / independent codec as oracle) and leave the "
